@@ -155,7 +155,7 @@ def _mk():
             return tuple(v)
         s = it.concrete_iter(v)
         if s is None:
-            if isinstance(v, (TV, Obj)):
+            if isinstance(v, (TV, Obj, ExtV)):
                 return TV(T("tuple", (A._term(v),)), kind="opaque")
             raise Unsupported("tuple() of non-concrete")
         return tuple(s)
@@ -166,7 +166,7 @@ def _mk():
         v = a[0]
         s = it.concrete_iter(v)
         if s is None:
-            if isinstance(v, (TV, Obj)):
+            if isinstance(v, (TV, Obj, ExtV)):
                 return TV(T("list", (A._term(v),)), kind="opaque")
             if isinstance(v, Unknown):
                 return v
